@@ -101,10 +101,13 @@ pub(crate) fn keyval<'s, 'i>(
 
 // keyval = key keyval-sep val
 pub(crate) fn parse_keyval(input: &mut Input<'_>) -> ModalResult<(Vec<Key>, (Key, Item))> {
-    trace(
-        "keyval",
-        (
-            key,
+    trace("keyval", |input: &mut Input<'_>| {
+        let mut path = key.parse_next(input)?;
+        let key = path.pop().expect("grammar ensures at least 1");
+
+        // The tables created by a dotted key nest the value
+        let (_, v) = check_recursion_n(
+            path.len(),
             cut_err((
                 one_of(KEYVAL_SEP)
                     .context(StrContext::Expected(StrContextValue::CharLiteral('.')))
@@ -118,16 +121,13 @@ pub(crate) fn parse_keyval(input: &mut Input<'_>) -> ModalResult<(Vec<Key>, (Key
                 ),
             )),
         )
-            .try_map::<_, _, std::str::Utf8Error>(|(key, (_, v))| {
-                let mut path = key;
-                let key = path.pop().expect("grammar ensures at least 1");
+        .parse_next(input)?;
 
-                let (pre, v, suf) = v;
-                let pre = RawString::with_span(pre);
-                let suf = RawString::with_span(suf);
-                let v = v.decorated(pre, suf);
-                Ok((path, (key, Item::Value(v))))
-            }),
-    )
+        let (pre, v, suf) = v;
+        let pre = RawString::with_span(pre);
+        let suf = RawString::with_span(suf);
+        let v = v.decorated(pre, suf);
+        Ok((path, (key, Item::Value(v))))
+    })
     .parse_next(input)
 }
